@@ -141,6 +141,18 @@ def check_conditional(case, ctx):
         if okh and not eq(got0, exp0, 1e-9, atol, slack0):
             ctx.violation(f"{label}:{family}:{method}", f"given={g[j0]!r} arg={args0.tolist()} got={np.asarray(got0).tolist()} expected={exp0.tolist()}")
 
+    # integer-typed conditioning values (rounded data, `model.pdf(int array)`): same numbers as the float form
+    gi = np.maximum(np.round(g), 1.0)
+    forms = [("int_array", gi.astype(int)), ("int_scalar", int(gi[0])), ("np_int64", np.int64(gi[0]))]
+    for label, gv in forms:
+        a = np.array(arg) if label == "int_array" else float(arg[0])
+        gf = gi.copy() if label == "int_array" else float(gi[0])
+        okf, vf = ctx.call(f"float_given:{family}:{method}", getattr(cond, method), a, given=gf)
+        okg, vg = ctx.call(f"{label}:{family}:{method}", getattr(cond, method), a, given=gv)
+        if okf and okg and not eq(vg, vf, 1e-12, atol):
+            ctx.violation(f"int_given:{label}:{family}:{method}", f"given={np.asarray(gv).tolist()} ({label}) -> {np.asarray(vg).tolist()} but the same values as float -> {np.asarray(vf).tolist()}")
+            break
+
     # sampling: scalar given and vector given, equal (1e-11: the dependence value itself may differ in the last ulp) to the template under the same seed
     seed, n = case["seed"], case["n"]
     oks1, s1 = ctx.call(f"sample_scalar:{family}", cond.draw_sample, n, float(g[0]), random_state=seed)
